@@ -73,13 +73,19 @@ func H01res() {
 	uses := func() string {
 		// (the first choice of every group is a benign one, so that varying one group is not
 		// cut short by an error of another)
-		switch pick(0, 4) {
+		switch pick(0, 7) {
 		case 1:
 			return "uses ga;"
 		case 2:
 			return "uses gb;"
 		case 3:
 			return "uses m:ga;"
+		case 4:
+			return "uses nowhere;" // defined nowhere: the search runs through every include and import
+		case 5:
+			return "uses ab:g;" // through the prefix of an import (absent or not written at all)
+		case 6:
+			return "uses n:gx;"
 		}
 		return "leaf plain { type string; }"
 	}
@@ -107,6 +113,11 @@ func H01res() {
 	}
 	errs := ms.Process()
 	reach("returned")
+	// the tree walker runs before the read-back: lookups with an unresolvable prefix record an
+	// error on the root entry by design, which is not an error of processing
+	if len(errs) == 0 {
+		hWF(ms)
+	}
 	// read-back of whatever came back
 	for _, e := range errs {
 		_ = e.Error()
@@ -136,30 +147,36 @@ func H01res() {
 		}
 		walk(e, 0)
 	}
-	if len(errs) == 0 {
-		hWF(ms)
-	}
 }
 
 // H01hist: a rejected submodule whose scoped typedef stays registered, then processing.
 func H01hist() {
 	hNoFiles()
 	ms := NewModules()
-	ty := []string{"nosuch", "m:nosuch", "string", "zz:t", "identityref { base foo; }", "leafref { path \"../x\"; }", "union { type nosuch; type string; }"}[symChoice(7)]
+	ty := []string{"nosuch", "m:nosuch", "string", "zz:t", "identityref { base foo; }", "leafref { path \"../x\"; }", "union { type nosuch; type string; }", "p:t", "p:nosuch"}[symChoice(9)]
 	term := "; "
 	if ty[len(ty)-1] == '}' {
 		term = " "
 	}
 	bad := `submodule sb { belongs-to m { prefix m; } container c { typedef tt { type ` + ty + term + `} leaf l { type tt; } } bogus-statement x; }`
-	if symBool() {
-		// the same in a rejected module instead of a rejected submodule
-		bad = `module mb { namespace "urn:mb"; prefix mb; container c { typedef tt { type ` + ty + term + `} leaf l { type tt; } } bogus-statement x; }`
+	switch symChoice(4) {
+	case 1:
+		// the same in a rejected module instead of a rejected submodule (it imports the loaded module p)
+		bad = `module mb { namespace "urn:mb"; prefix mb; import p { prefix p; } container c { typedef tt { type ` + ty + term + `} leaf l { type tt; } } bogus-statement x; }`
+	case 2:
+		// a text whose top-level statement is no module at all, rejected after its typedef was registered
+		bad = `grouping gr { typedef tt { type ` + ty + term + `} leaf l { type tt; } }`
+	case 3:
+		bad = `container cr { typedef tt { type ` + ty + term + `} }`
 	}
 	good := `module m { namespace "urn:m"; prefix m; leaf ok { type string; } }`
+	pmod := `module p { namespace "urn:p"; prefix p; typedef t { type string; } }`
 	if symBool() {
 		ms.Parse(bad, "sb.yang")
 		ms.Parse(good, "m.yang")
+		ms.Parse(pmod, "p.yang")
 	} else {
+		ms.Parse(pmod, "p.yang")
 		ms.Parse(good, "m.yang")
 		ms.Parse(bad, "sb.yang")
 	}
@@ -167,5 +184,8 @@ func H01hist() {
 	_ = hErrs(errs)
 	errs = ms.Process()
 	_ = hErrs(errs)
+	for _, k := range hModuleNames(ms) {
+		_ = hDumpTree(ToEntry(ms.Modules[k]), "")
+	}
 	reach("returned")
 }
